@@ -21,10 +21,18 @@ static inline iora_sv iora_sv_substr(const iora_sv *s, size_t pos, size_t count)
 static inline iora_sv iora_sv_substr1(const iora_sv *s, size_t pos) { return iora_sv_substr(s, pos, IORA_NPOS); }
 
 /* sv == "lit" for literals of at most 4 characters: loop-free byte comparison */
-#define IORA_SV_EQ_LIT(x, s) ((x).n == sizeof(s) - 1 \
-   && (sizeof(s) - 1 < 1 || (x).p[0] == (s)[0]) && (sizeof(s) - 1 < 2 || (x).p[1] == (s)[sizeof(s) - 1 < 2 ? 0 : 1]) \
-   && (sizeof(s) - 1 < 3 || (x).p[2] == (s)[sizeof(s) - 1 < 3 ? 0 : 2]) && (sizeof(s) - 1 < 4 || (x).p[3] == (s)[sizeof(s) - 1 < 4 ? 0 : 3]) \
-   && sizeof(s) - 1 <= 4)
+static inline bool iora_sv_eq_lit(iora_sv x, const char *s, size_t len)
+{
+  IORA_ASSERT(len <= 4, "model: comparison literal of at most 4 characters");
+  if (x.n != len) return false;
+  bool r = true;
+  if (len > 0) r &= (x.p[0] == s[0]);
+  if (len > 1) r &= (x.p[1] == s[1]);
+  if (len > 2) r &= (x.p[2] == s[2]);
+  if (len > 3) r &= (x.p[3] == s[3]);
+  return r;
+}
+#define IORA_SV_EQ_LIT(x, s) iora_sv_eq_lit((x), (s), sizeof(s) - 1)
 
 /* string_view::find(char c, size_t pos): first index >= pos holding c, npos otherwise (libstdc++).
  * Contains a loop -> contract-replaced in the client proof; the body below is proved against the same contract (proof "find_shim").
